@@ -51,6 +51,7 @@ def _verify_one(args):
                     d["inputs"] = getattr(ob, "inputs", None)
                 if ob.status == "unknown":
                     d["reason"] = getattr(ob, "reason", "")
+                    d["candidate_inputs"] = getattr(ob, "candidate_inputs", None)
                 out["obligations"].append(d)
         out["wall"] = time.time() - t0
         return out
